@@ -42,6 +42,8 @@ type Case struct {
 	ViaConfig  bool     `json:"via_config,omitempty"`
 	WatchEvent []string `json:"watch_event,omitempty"`
 	HasWatch   bool     `json:"has_watch_event,omitempty"`
+	// Kind: how the binding spells the kind ("" = ConfigMap); lower-case and plural spellings are accepted
+	Kind string `json:"kind,omitempty"`
 }
 
 var filters = []string{
@@ -124,6 +126,7 @@ func gen(t *rapid.T) Case {
 			}
 		}
 	}
+	c.Kind = rapid.SampledFrom([]string{"", "", "", "configmap", "configmaps"}).Draw(t, "kind")
 	c.Filter = rapid.SampledFrom(filters).Draw(t, "filter")
 	c.KeepFull = rapid.Bool().Draw(t, "keepFull")
 	ns := rapid.IntRange(2, 5).Draw(t, "nstates")
@@ -317,7 +320,11 @@ func runCase(c Case) (ev.Info, error) {
 	for _, o := range kit.SortedKeys(c.Initial) {
 		kit.Must(kit.Create(fc, kit.Obj("d", o, c.States[c.Initial[o]])))
 	}
-	cfg := &kem.MonitorConfig{ApiVersion: "v1", Kind: "ConfigMap", JqFilter: c.Filter, KeepFullObjectsInMemory: c.KeepFull}
+	kindSpelling := "ConfigMap"
+	if c.Kind != "" {
+		kindSpelling = c.Kind
+	}
+	cfg := &kem.MonitorConfig{ApiVersion: "v1", Kind: kindSpelling, JqFilter: c.Filter, KeepFullObjectsInMemory: c.KeepFull}
 	listed := []string{"Added", "Modified", "Deleted"}
 	if c.Default {
 		cfg.WithEventTypes(nil)
@@ -334,7 +341,7 @@ func runCase(c Case) (ev.Info, error) {
 	}
 	if c.ViaConfig {
 		// the same binding written as a hook configuration and loaded by the real loader
-		kb := map[string]any{"name": "b", "apiVersion": "v1", "kind": "ConfigMap", "keepFullObjectsInMemory": c.KeepFull}
+		kb := map[string]any{"name": "b", "apiVersion": "v1", "kind": kindSpelling, "keepFullObjectsInMemory": c.KeepFull}
 		if c.Filter != "" {
 			kb["jqFilter"] = c.Filter
 		}
@@ -505,7 +512,7 @@ func runCase(c Case) (ev.Info, error) {
 	return info, failure
 }
 
-const rule = "one informer of a real monitor on a fake cluster, unlocked, driven through OnAdd/OnUpdate/OnDelete with generated per-object histories over a pool of 2-5 generated object states (repeats, changes outside the projection, delete (also delivered as a DeletedFinalStateUnknown tombstone) and re-add, re-delivery of Added for listed objects - also flagged as coming from the informer's own initial list, possibly in a newer state -, resync), executeHookOnEvent all subsets plus default (in a third of the cases declared in a hook configuration loaded by the real loader, optionally next to the deprecated watchEvent), jqFilter from a pool of object/array/scalar/null-valued single-output expressions, two multi-output expressions (objects with distinct keys) or none; oracle: trigger <=> type listed and (Deleted or independently computed projection differs from the last known), and every snapshot shows the latest state. Non-trivial: one object had both a suppressed and a delivered Modified. Distinct = distinct cases."
+const rule = "one informer of a real monitor on a fake cluster (kind spelled ConfigMap, configmap or configmaps), unlocked, driven through OnAdd/OnUpdate/OnDelete with generated per-object histories over a pool of 2-5 generated object states (repeats, changes outside the projection, delete (also delivered as a DeletedFinalStateUnknown tombstone) and re-add, re-delivery of Added for listed objects - also flagged as coming from the informer's own initial list, possibly in a newer state -, resync), executeHookOnEvent all subsets plus default (in a third of the cases declared in a hook configuration loaded by the real loader, optionally next to the deprecated watchEvent), jqFilter from a pool of object/array/scalar/null-valued single-output expressions, two multi-output expressions (objects with distinct keys) or none; oracle: trigger <=> type listed and (Deleted or independently computed projection differs from the last known), and every snapshot shows the latest state. Non-trivial: one object had both a suppressed and a delivered Modified. Distinct = distinct cases."
 
 func TestInformer(t *testing.T) {
 	ev.Main(t, ev.Spec[Case]{Property: "C08", Part: "informer", Rule: rule, Gen: gen, Run: runCase})
